@@ -247,12 +247,14 @@ func OneShot(kind string, sc *Script, capMs int, wantModel bool) Result {
 		text += "(set-option :pp.decimal true)\n(set-option :pp.decimal_precision 20)\n"
 	}
 	text += sc.Text + "(check-sat)\n"
-	if wantModel && len(sc.GetNames) > 0 {
+	if wantModel && (len(sc.GetNames) > 0 || len(sc.UFApps) > 0) {
 		var names []string
 		for _, sn := range sc.GetNames {
 			names = append(names, sn)
 		}
-		text += "(get-value (" + strings.Join(names, " ") + "))\n"
+		if len(names) > 0 {
+			text += "(get-value (" + strings.Join(names, " ") + "))\n"
+		}
 		if len(sc.UFApps) > 0 {
 			seen := map[string]bool{}
 			var extra []string
